@@ -125,7 +125,101 @@ def gen_steps():
         steps = ["Unknown"]
     return width, init, steps
 
+def fn_body(src, header_re):
+    """text between the braces of the first fn whose header matches"""
+    m = re.search(header_re, src)
+    if not m:
+        return None
+    i = src.index("{", m.end() - 1) if src[m.end() - 1] != "{" else m.end() - 1
+    depth = 0
+    for j in range(i, len(src)):
+        if src[j] == "{":
+            depth += 1
+        elif src[j] == "}":
+            depth -= 1
+            if depth == 0:
+                return src[i + 1:j]
+    return None
+
+def module_new_selectors():
+    """ModuleUnwindDataInternal::new: the top-level statements that pick the unwind-data kind.
+    Returns (selectors, unguarded_names): selectors = [(feature or None, section name, returns)] for every
+    top-level `if let Some(_) = section_info.section_data(b"NAME")` (with the #[cfg(feature = "...")] in front of
+    it), in source order; unguarded_names = every section name consulted outside feature-guarded statements."""
+    s = strip_comments(read("src/unwinder.rs"))
+    mi = re.search(r"impl\s*<[^{]*>\s*ModuleUnwindDataInternal\s*<\s*D\s*>\s*\{", s)
+    body = fn_body(s[mi.start():], r"fn\s+new\s*\([^)]*\)\s*->\s*Self\s*\{") if mi else None
+    if body is None:
+        fallbacks.append("ModuleUnwindDataInternal::new")
+        return [("macho", "__unwind_info", True), ("pe", ".pdata", True), (None, ".eh_frame", False)], \
+               [".eh_frame", "__eh_frame", ".eh_frame_hdr", "__eh_frame_hdr", ".debug_frame"]
+    # split into top-level statements (depth 0 inside the body)
+    stmts = []
+    depth = 0
+    cur = ""
+    for ch in body:
+        cur += ch
+        if ch in "{([":
+            depth += 1
+        elif ch in "})]":
+            depth -= 1
+            if depth == 0 and ch == "}":
+                stmts.append(cur); cur = ""
+        elif ch == ";" and depth == 0:
+            stmts.append(cur); cur = ""
+    if cur.strip():
+        stmts.append(cur)
+    sels = []
+    unguarded = []
+    for st in stmts:
+        t = st.strip()
+        feat = None
+        mg = re.match(r"#\s*\[\s*cfg\s*\((.*?)\)\s*\]\s*", t, re.S)
+        guard_text = None
+        if mg:
+            guard_text = mg.group(1)
+            mf = re.fullmatch(r"\s*feature\s*=\s*\"(\w+)\"\s*", guard_text)
+            feat = mf.group(1) if mf else "other:" + re.sub(r"\s+", "", guard_text)
+            t = t[mg.end():]
+        msel = re.match(r"(?:else\s+)?if\s+let\s+Some\s*\(\s*\w+\s*\)\s*=\s*section_info\s*\.\s*section_data\s*\(\s*b\"([^\"]+)\"\s*\)", t, re.S)
+        if msel:
+            sels.append((feat, msel.group(1), bool(re.search(r"\breturn\b", t))))
+        if feat is None:
+            unguarded += re.findall(r"b\"([^\"]+)\"", t)
+    seen = []
+    for n in unguarded:
+        if n not in seen:
+            seen.append(n)
+    return sels, seen
+
+def write_if_changed(path, text):
+    os.makedirs(os.path.dirname(path), exist_ok=True)
+    old = None
+    try:
+        old = open(path).read()
+    except OSError:
+        pass
+    if old != text:
+        open(path, "w").write(text)
+        print("UPDATED", os.path.basename(path))
+
+def feat_consts():
+    sels, names = module_new_selectors()
+    out = ["(* GENERATED by tools/extract_consts.py from /repo/src/unwinder.rs (ModuleUnwindDataInternal::new) - do not edit. *)",
+           "From Coq Require Import String List.", "Import ListNotations.", "Open Scope string_scope.",
+           "Inductive feature := FStd | FMacho | FPe | FOther.",
+           "(* top-level selectors of the unwind-data kind, in source order: (guarding feature, section, returns) *)"]
+    fm = {"std": "FStd", "macho": "FMacho", "pe": "FPe"}
+    def f(x):
+        return "None" if x is None else "(Some %s)" % fm.get(x, "FOther")
+    out.append("Definition SRC_NEW_SELECTORS : list (option feature * string * bool) := [" +
+               "; ".join('(%s, "%s", %s)' % (f(a), b, "true" if c else "false") for a, b, c in sels) + "].")
+    out.append("Definition SRC_NEW_UNGUARDED_NAMES : list string := [" + "; ".join('"%s"' % n for n in names) + "].")
+    write_if_changed(os.path.join(os.path.dirname(OUT), "FeatConsts.v"), "\n".join(out) + "\n")
+    return sels, names
+
 def main():
+    feat_sels, feat_names = feat_consts()
     cec = cache_entry_count()
     enc = encode_registers()
     regs = reg_order()
@@ -164,6 +258,7 @@ def main():
         print("FALLBACK", f)
     print(json.dumps({"CACHE_ENTRY_COUNT": cec, "ENCODE_REGISTERS": enc, "REG_ORDER": regs,
                       "SOS": sos, "GEN_WIDTH": width, "GEN_INIT": init, "DRAW_STEPS": steps,
+                      "NEW_SELECTORS": feat_sels, "NEW_UNGUARDED_NAMES": feat_names,
                       "fallbacks": fallbacks}))
 
 if __name__ == "__main__":
